@@ -246,6 +246,15 @@ def run_case(case, ctx):
 	elif mode == 'instant':
 		ex = InstantExecutor()
 		kw = dict(executor=ex)
+	elif mode == 'reused_threads':
+		# a caller-owned real thread pool that has already been used (also for a failing call) before this call
+		from concurrent.futures import ThreadPoolExecutor
+		real_ex = ThreadPoolExecutor(max_workers=case['max_workers'] or 2)
+		try:
+			calc_file_signatures(kspec, SequenceFile.from_paths([paths[-1], make_fault(ctx, 'truncated_gzip_hits')], 'fasta', 'auto'), executor=real_ex)
+		except Exception:
+			pass
+		kw = dict(executor=real_ex)
 	elif mode in ('threads', 'processes'):
 		kw = dict(concurrency=mode, max_workers=case['max_workers'])
 	elif mode == 'none':
@@ -261,6 +270,11 @@ def run_case(case, ctx):
 	finally:
 		if ex is not None:
 			alive_ok = ex.finish()
+		if mode == 'reused_threads':
+			was_shut = real_ex._shutdown
+			real_ex.shutdown(wait=True)
+	if mode == 'reused_threads' and was_shut:
+		raise Violation('executor_shut_down', 'caller-supplied ThreadPoolExecutor was shut down by calc_file_signatures', case)
 	if ex is not None:
 		if ex.shutdown_called:
 			raise Violation('executor_shut_down', 'caller-supplied executor was shut down by calc_file_signatures', case)
@@ -298,6 +312,8 @@ def run_case(case, ctx):
 				classes.append('reverse_order')
 	elif mode == 'instant':
 		nontrivial = n >= 2
+	elif mode == 'reused_threads':
+		nontrivial = n >= 2
 	elif mode in ('threads', 'processes'):
 		classes.append(f'workers={case["max_workers"]}')
 		if case['skew']:
@@ -313,7 +329,7 @@ def run_case(case, ctx):
 @st.composite
 def gen_case(draw, tier):
 	n = draw(st.integers(1, 8))
-	mode = draw(st.sampled_from(['ordered', 'threads', 'processes', 'instant', 'none', 'ordered', 'threads', 'cli_create']))
+	mode = draw(st.sampled_from(['ordered', 'threads', 'processes', 'instant', 'none', 'ordered', 'threads', 'cli_create', 'reused_threads']))
 	fault = draw(st.one_of(st.none(), st.none(), st.builds(lambda p, t: {'pos': p, 'type': t}, st.integers(0, 7),
 	                                                        st.sampled_from(['missing', 'directory', 'truncated_gzip', 'bad_utf8', 'junk', 'text']))))
 	return {
